@@ -34,4 +34,17 @@ def walReplay (valid : Nat → Bytes → Bool) : Nat → Bytes → List Frame ×
             (⟨ty, payload⟩ :: fs, 5 + len + n)
           else ([], 0)
 
+/-- `readFullGrowing` (the read of an entry's payload): bytes read and buffer capacity after
+asking for `n` bytes of a reader that holds `p`, with `len` bytes already in a buffer of
+capacity `cap`. The buffer grows by doubling plus the chunk wanted next, never by `n`. -/
+def growRead (chunk : Nat) : Nat → Nat → Nat → Nat → Nat → Nat × Nat
+  | 0, _, _, len, cap => (len, cap)
+  | fuel + 1, n, p, len, cap =>
+    if len ≥ n then (len, cap)
+    else
+      let want := min (n - len) chunk
+      let cap' := if cap - len < want then 2 * cap + want else cap
+      let got := min want (p - len)
+      if got < want then (len + got, cap') else growRead chunk fuel n p (len + got) cap'
+
 end InfluxVerif.Codec
